@@ -69,6 +69,7 @@ func (c *ctx) finish() {
 func execLine(def stream, lhs string) string {
 	toks := strings.Split(lhs, " ")
 	refTables.Clear()
+	setFaultDisguise(lhs)
 	return guard(func() string { return def.exec(toks[1:]) })
 }
 
